@@ -322,7 +322,7 @@ func runC10(c *Ctx) {
 	}
 
 	// ------------------------------------------------------------------------------------------------ R2
-	c.rule("C10-R2", "Commit: amount = min(claimTail-claimHead, n); region chosen by emptiness / adjacency; claim cleared", 2)
+	c.rule("C10-R2", "Commit: amount = min(claimTail-claimHead, n); region chosen by emptiness / adjacency; claim cleared; the chunk returned starts at that region's cursor", 3)
 	{
 		fn := m("Commit")
 		names := map[ssa.Value]string{}
@@ -360,6 +360,32 @@ func runC10(c *Ctx) {
 			"(0!=amount) => claimTail = 0",
 		}
 		compare(fn, "transitions", got, want, "committed bytes are attached to the wrong region (stale bytes become visible at the head, or new bytes lie in space the buffer considers free)")
+		// the chunk handed back is the one just committed: it starts at a cursor of the region it was attached to (head of a
+		// buffer that was empty, the old tail, the old wrappedTail), never at a constant
+		okChunk, nChunk := true, 0
+		for _, r := range returnsOf(fn) {
+			sl, ok := stripConv(r.Results[0]).(*ssa.Slice)
+			if !ok || sl.Low == nil {
+				if !isNil(r.Results[0]) {
+					okChunk = false
+				}
+				continue
+			}
+			nChunk++
+			starts := map[string]bool{}
+			for _, leaf := range phiLeaves(sl.Low) {
+				f := loadedField(resolveCell(leaf))
+				if f == nil {
+					okChunk = false
+					continue
+				}
+				starts[pinFieldName(f)] = true
+			}
+			if !(starts["head"] && starts["tail"] && starts["wrappedTail"] && len(starts) == 3) {
+				okChunk = false
+			}
+		}
+		c.check(okChunk && nChunk > 0, fn, "returned chunk", fn.Pos(), "data[start:end] of the region the bytes were attached to", "the slice Commit returns does not start at the cursor of the region the bytes were committed to: the caller is handed bytes it did not write (a chunk starting at 0)")
 	}
 
 	// ------------------------------------------------------------------------------------------------ R3
